@@ -15,25 +15,43 @@ def main():
         vlib.build_repo("plain")
     except vlib.Broken as b:
         print("setup: libnano build failed:", b.what, b.detail[-2000:]); rc = 1
+    mods = {}
     for pid in pids:
         try:
-            mod = importlib.import_module("props." + pid.lower())
+            mods[pid] = importlib.import_module("props." + pid.lower())
         except Exception as ex:
             print(f"setup: cannot import props.{pid.lower()}: {ex!r}"); rc = 1
-            continue
+
+    def harness(pid):
+        mod = mods[pid]
         try:
             vlib.build_harness(mod.HARNESS, "plain", getattr(mod, "HARNESS_FLAGS", ""))
+            return None
         except vlib.Broken as b:
-            print(f"setup: harness {pid}: {b.what} {b.detail[-1500:]}"); rc = 1
+            return f"setup: harness {pid}: {b.what} {b.detail[-1500:]}"
+
+    from concurrent.futures import ThreadPoolExecutor
+    with ThreadPoolExecutor(max_workers=max(2, vlib.NCPU // 2)) as ex:
+        for msg in ex.map(harness, list(mods)):
+            if msg:
+                print(msg); rc = 1
+    targets = []
+    for pid, mod in mods.items():
         if hasattr(mod, "translate"):
             try:
                 mod.translate()
             except Exception as ex:
                 print(f"setup: translate {pid}: {ex!r}"); rc = 1
-        try:
-            vlib.lake_build(["driver_" + pid.lower()] + list(mod.LEAN_MODULES), "lake-" + pid)
-        except vlib.Broken as b:
-            print(f"setup: lake build {pid} failed:", b.detail[-3000:]); rc = 1
+        targets += ["driver_" + pid.lower()] + list(mod.LEAN_MODULES)
+    # one lake invocation for everything (lake schedules the modules over all cores); a failure is then pinned down per property
+    try:
+        vlib.lake_build(sorted(set(targets)), "lake")
+    except vlib.Broken:
+        for pid, mod in mods.items():
+            try:
+                vlib.lake_build(["driver_" + pid.lower()] + list(mod.LEAN_MODULES), "lake-" + pid)
+            except vlib.Broken as b:
+                print(f"setup: lake build {pid} failed:", b.detail[-3000:]); rc = 1
     sys.exit(rc)
 
 
